@@ -75,7 +75,7 @@ template<class F> struct ObjT : AnyObj {
     std::string img;
     try { img = F::image(s); } catch (...) { L.muted = false; throw; }
     L.muted = false;
-    if (w.size() > 3) { size_t cut = (size_t)atoll(w[3].c_str()); if (cut < img.size()) img.resize(cut); }   // truncated image
+    if (w[0] == "serdecut" && w.size() > 3) img.resize(img.size() * (size_t)atoll(w[3].c_str()) / 100);   // truncated image: must be rejected
     return new ObjT(FromImage(), img, ledger().shared_inst ? 1 : atoi(w[2].c_str()) + 1);
   }
   void trim() override { F::trim(s); }
